@@ -493,8 +493,8 @@ func runClientScript(t *testing.T, c *caseWriter, vl *violationLog, seedv int64,
 			defer func() {
 				if rec := recover(); rec != nil {
 					w.mu.Lock()
-					// an abort after the harness itself has ended the client's life (the rate limiter's 20 s pause does not
-					// watch the context: finding F11, reported by C19) is not part of the scripted life
+					// an abort after the harness itself has ended the client's life is not part of the scripted life (before the
+					// repair of F11 the rate limiter's 20 s pause did not watch the context and ended in a panic)
 					if !w.past() {
 						w.acts = append(w.acts, L{5, w.rel()})
 						atomic.StoreInt32(&w.crashed, 1)
